@@ -44,11 +44,24 @@ def so(x):
 def r1_construction_sites(ctx):
     F = ctx.facts
     sites = {}
+    def owner(f, depth=0):
+        """the function whose evaluation covers this construction site: closures belong to their parent; a private
+        helper of the objective module is covered by (inlined into) the evaluation of each of its callers"""
+        while f.kind == "Closure" and f.parent and F.fn_opt(f.parent) is not None:
+            f = F.fn_opt(f.parent)
+        if depth < 3 and f.vis not in ("pub", "public") and f.kind == "Fn" and INL(f.key) and not f.impl_trait:
+            callers = {owner(g, depth + 1).key for (g, b, t) in F.callers_of(lambda c, k=f.key: (c.get("resolved", {}).get("key") or c.get("key")) == k)}
+            if callers:
+                return [F.fn_opt(k) for k in sorted(callers)]
+        return f
     for f in F.all_fns:
         for b in f.body.normal_blocks():
             for st in f.body.stmts(b):
                 if st[0] == "=" and st[2][0] == "agg" and st[2][1].get("adt") in (SO, MO):
-                    sites.setdefault(f.key, []).append((f, st))
+                    o = owner(f)
+                    for g in (o if isinstance(o, list) else [o]):
+                        if g is not None:
+                            sites.setdefault(g.key, []).append((g, st))
     ctx.floor("C09.R1", "functions constructing objective values", len(sites), 8)
     known_single = {"try_from": "converter", "default": "const"}
     findings = []
